@@ -35,8 +35,20 @@ def model_cb(cb):
     return {k: [MODEL_TAG.get(v[0], v[0])] + list(v[1:]) for k, v in cb.items()}
 
 
+_CUR = {"table": {}, "ser": None, "calls": None}
+
+
 def make_cb(table, ser, calls):
-    def cb(node, memo):
+    """ONE callback function object serves all visits of a check run (an application passes the same function again and
+    again; nothing the library remembers about a callback object may change what a later traversal does): the verdict
+    table, the numbering and the call log of the current visit are switched underneath it"""
+    _CUR.update(table=table, ser=ser, calls=calls)
+    return _shared_cb
+
+
+def _shared_cb(node, memo):
+    if True:
+        table, ser, calls = _CUR["table"], _CUR["ser"], _CUR["calls"]
         s = ser.of(node)
         calls.append(s)
         tag, v = table.get(s, ("retNone", None))
@@ -71,8 +83,6 @@ def make_cb(table, ser, calls):
         if tag == "raiseOther":
             raise CbError("boom")
         raise AssertionError(tag)
-
-    return cb
 
 
 def impl_iter(tree, ser, path, m, add_self):
